@@ -1074,6 +1074,17 @@ fn system_query(
     } else {
         None
     };
+    if text.to_ascii_lowercase().contains("from system.peers") {
+        let now = w.now();
+        if params.paging_state.is_none() {
+            w.peers_fetch_started.insert(conn, now);
+        }
+        if paging_state.is_none() {
+            if let Some(start) = w.peers_fetch_started.remove(&conn) {
+                w.peers_fetches.push((start, now + delay));
+            }
+        }
+    }
     let body = wire::body_rows(
         &cols,
         &rows[offset..end],
